@@ -5,10 +5,10 @@ from . import terms as T
 from .state import State, fresh_like, same_value
 from .values import SliceV, StructV, TupleV, PtrV, ClosureV, SeqV, Unsupported, is_term
 from .exec_expr import Env, SORTS
-from .cparse import parse_expr
+from .cparse import parse_expr, ParseError
 
 # callees assumed pure (no effect on modelled state) and total; listed in evidence as trusted
-PURE_PKGS = ('fmt', 'errors', 'github.com/pkg/errors', 'strings', 'path', 'path/filepath', 'math', 'time', 'strconv',
+PURE_PKGS = ('github.com/itchio/savior', 'fmt', 'errors', 'github.com/pkg/errors', 'strings', 'path', 'path/filepath', 'math', 'time', 'strconv',
              'unicode', 'unicode/utf8', 'math/bits', 'runtime', 'log', 'github.com/itchio/headway/united',
              'github.com/itchio/headway/state', 'github.com/itchio/headway/counter', 'reflect', 'sync', 'sync/atomic',
              'github.com/itchio/wharf/werrors', 'context')
@@ -48,6 +48,9 @@ class CallMixin:
     def is_pure(self, fullname, call):
         if fullname in self.specs.pure:
             return True
+        for p in self.specs.pure:
+            if fullname.endswith('/' + p) or fullname.replace('(*', '').replace(')', '').endswith('/' + p.replace('(*', '').replace(')', '')):
+                return True
         name = fullname
         m = re.match(r'^\(\*?([^)]+)\)\.(\w+)$', name)
         if m:
@@ -68,6 +71,9 @@ class CallMixin:
         key = iface + '.' + method
         if key in self.specs.pure:
             return True
+        for p in self.specs.pure:
+            if key.endswith('/' + p) or key == p:
+                return True
         for p in PURE_METHOD_RECV:
             if iface.startswith(p):
                 return True
@@ -86,6 +92,15 @@ class CallMixin:
             ps = self.ifacespecs.get((recv, method)) if is_term(recv) else None
             if ps is not None:
                 return self.apply_param_contract(ctx, ins, st, ps, args, res_types)
+            if is_term(recv) and recv in self.iface_static:
+                # the dynamic type is known: call the concrete method (its contract, or its body)
+                ptn, px = self.iface_static[recv]
+                cname = '(%s).%s' % (ptn, method)
+                cfn = self.prog.funcs.get(cname)
+                if cfn is not None:
+                    cspec = self.find_func_spec(cname)
+                    if cspec is not None and (cspec.requires or cspec.ensures or cspec.trusted or cspec.modifies is not None):
+                        return self.apply_func_contract(ctx, ins, st, cspec, cfn, ClosureV(cname, []), [px] + args, res_types, cname)
             spec = self.find_iface_spec(iface, method)
             if spec is not None:
                 return self.apply_contract(ctx, ins, st, spec, recv, iface, args, res_types, iface.rsplit('/', 1)[-1] + '.' + method)
@@ -103,6 +118,16 @@ class CallMixin:
             top_inline = self.spec.inline if self.spec is not None else set()
             short = self.prog.short(name)[1] if fn else name
             want_inline = short in caller_inline or short in top_inline
+            # in-context contract of an external callee (an assumption, listed): `call <callee>:` in the caller's contract
+            for sp_ in (ctx['spec'], self.spec):
+                if sp_ is not None and getattr(sp_, 'calls', None):
+                    nn = name.replace('(*', '').replace(')', '')
+                    for cname, cs in sp_.calls.items():
+                        cn_ = cname.replace('(*', '').replace(')', '')
+                        if nn == cn_ or (nn.endswith(cn_) and nn[-len(cn_) - 1] in '/.'):
+                            self.assumed_used.add('in-context contract of %s in %s' % (cname, self.oname))
+                            return self.apply_param_contract(ctx, ins, st, cs, args, res_types,
+                                                             ptypes=[p_['type'] for p_ in fn['params']] if fn else None)
             if spec is not None and (spec.requires or spec.ensures or spec.trusted or spec.modifies is not None
                                      or spec.assumed) and not want_inline:
                 return self.apply_func_contract(ctx, ins, st, spec, fn, fv, args, res_types, name)
@@ -114,6 +139,18 @@ class CallMixin:
                 return self.unknown_call(ctx, ins, st, name, args, res_types, wharf=True)
             if self.is_pure(name, call):
                 self.pure_used.add(name)
+                if name == '(*sync.Once).Do' and len(args) == 2 and isinstance(args[1], ClosureV):
+                    # runs the function (at most once; the patcher's uses are single calls)
+                    f2 = self.prog.funcs.get(args[1].fn)
+                    if f2 is not None and args[1].fn not in self.call_stack:
+                        self.inline_call(ctx, ins, st, f2, args[1], [], self.find_func_spec(args[1].fn))
+                        return None
+                for a in args:
+                    if isinstance(a, ClosureV):
+                        for cid in self.closure_cells(a, written_only=True):
+                            if cid in st.cells and not isinstance(st.cells[cid], (PtrV, ClosureV)):
+                                st.cells[cid] = fresh_like(st.cells[cid], 'pc')
+                                self.record_write(('cell', cid))
                 return self.pure_result(name, args, res_types, st)
             return self.unknown_call(ctx, ins, st, name, args, res_types)
         if is_term(fv):
@@ -278,11 +315,14 @@ class CallMixin:
             self.assumed_used.add(spec.name)
         return self.apply_contract_env(ctx, ins, st, spec, names, spec.results or [], res_types, label)
 
-    def apply_param_contract(self, ctx, ins, st, ps, args, res_types):
+    def apply_param_contract(self, ctx, ins, st, ps, args, res_types, ptypes=None):
         names = {}
         argn = ps.args or ['a%d' % i for i in range(len(args))]
         un, sig = self.ty.under(ins['call']['sig'])
-        ptypes = sig.get('params', [None] * len(args))
+        if ptypes is None:
+            ptypes = list(sig.get('params', [None] * len(args)))
+        if len(ptypes) < len(args):
+            ptypes = [None] * (len(args) - len(ptypes)) + ptypes
         for n, a, t in zip(argn, args, ptypes):
             names[n] = (a, t)
         return self.apply_contract_env(ctx, ins, st, ps, names, ps.results or [], res_types, ps.name)
@@ -326,9 +366,19 @@ class CallMixin:
         env2 = Env(n2, st, pre, cn, self.pkg)
         for c in spec.ensures:
             try:
-                t = self.eval_bool(c.parse(), env2)
+                mwhen = re.match(r'^when\s+(\w+)\s+is\s+([^:]+):\s*(.*)$', c.text, re.S)
+                if mwhen:
+                    # clause about one dynamic type of an interface-valued argument: applies where that is the static type
+                    av = n2.get(mwhen.group(1), (None, None))[0]
+                    want = self.type_from_ast(parse_expr(mwhen.group(2).strip()), env2)
+                    have = self.iface_static.get(av, (None, None))[0] if is_term(av) else None
+                    if have != want:
+                        continue
+                    t = self.eval_bool(parse_expr(mwhen.group(3)), env2)
+                else:
+                    t = self.eval_bool(c.parse(), env2)
                 self.add_hyp(t, st)
-            except Unsupported as e:
+            except (Unsupported, ParseError) as e:
                 self.elab_fail('postcondition of %s %r: %s' % (label, c.text, e))
         if spec.ensures and not self.mute:
             # vacuity canary: the assumed postcondition must not contradict what is known at this call site
@@ -359,6 +409,14 @@ class CallMixin:
                         self.record_write(('heap', name), x.base)
                         st.heap[name] = T.store(arr, x.base, T.fresh('hv_elems', T.ARR(T.INT, s)))
                     continue
+                m = re.match(r'^elems\((\w+),\s*(.*)\)$', loc)
+                if m:
+                    bx = self.eval_int(parse_expr(m.group(2)), env)
+                    name = 'E|%s' % m.group(1)
+                    arr = self.heap_get(st, name, T.ARR(T.INT, T.AII))
+                    self.record_write(('heap', name), bx)
+                    st.heap[name] = T.store(arr, bx, T.fresh('hv_elems', T.AII))
+                    continue
                 m = re.match(r'^map\((.*)\)$', loc)
                 if m:
                     x, tn = self.eval(parse_expr(m.group(1)), env)
@@ -388,6 +446,9 @@ class CallMixin:
                             v = self.ty.symbolic(ftype, 'hv_' + fname)
                             self.assume_facts(v, ftype)
                             self.store(st, PtrV('field', x, stn, None, (fname,)), v)
+                        continue
+                    if is_term(x):
+                        self.havoc_at_ref(st, self.uf_pay(x) if (tn and self.ty.kind(tn) == 'interface') else x)
                         continue
                     raise Unsupported('modifies %s: target type unknown; everything havoced' % loc)
                 m = re.match(r'^(.*)\.\*$', loc)
@@ -782,6 +843,11 @@ class CallMixin:
                         if allowed.get(nm_, []) is not None:
                             allowed.setdefault(nm_, []).append(x.base)
                     continue
+                m = re.match(r'^elems\((\w+),\s*(.*)\)$', loc)
+                if m:
+                    bx = self.eval_int(parse_expr(m.group(2)), env0)
+                    allowed.setdefault('E|%s' % m.group(1), []).append(bx)
+                    continue
                 m = re.match(r'^map\((.*)\)$', loc)
                 if m:
                     x, tn = self.eval(parse_expr(m.group(1)), env0)
@@ -825,7 +891,7 @@ class CallMixin:
                     x = self.eval_int(ast[2][0], env0)
                     allowed.setdefault('G|' + ast[1], []).append(x)
                     continue
-            except (Unsupported, KeyError, AttributeError) as e:
+            except (Unsupported, KeyError, AttributeError, ParseError) as e:
                 self.elab_fail('modifies %s: %s' % (loc, e))
         # cells visible to the caller: captured variables and ghost cells
         for cid, v0 in self.entry_state.cells.items():
@@ -845,8 +911,17 @@ class CallMixin:
             self.oblige('frame', T.and_(*eqs), ex, 'variable %s is changed but not listed in modifies' % (cid[1],), '',
                         slug='var-%s' % cid[1])
         fresh_refs = list(self.alloc_refs)
+        ep = ex.heap.get('#epoch')
+        if ep is not None and ep != T.ZERO:
+            self.oblige('frame', T.FALSE, ex, 'an unmodelled call (or `modifies heap` callee) may change the whole heap; '
+                        'the contract must say `modifies heap`', '', slug='whole-heap')
+        for ref, ev, ep_at in ex.heap.get('#wild', ()):
+            oks = [T.eq(ref, r) for r in allowed.get('*', [])]
+            self.oblige('frame', T.or_(*oks) if oks else T.FALSE, ex,
+                        'everything designated by a reference of unknown type is changed outside the modifies clause', '',
+                        slug='wild-ref')
         for name in sorted(set(ex.heap)):
-            if name == '#epoch':
+            if name.startswith('#'):
                 continue
             a1 = ex.heap[name]
             a0 = self.heap0.get(name)
